@@ -18,7 +18,30 @@ LEAN = os.path.join(VERIF, "lean")
 HARNESS = os.path.join(VERIF, "harness")
 BUILD = os.path.join(VERIF, "build")
 REPO = os.environ.get("VERIF_REPO", "/repo")
-MODEL_EXE = os.path.join(LEAN, ".lake", "build", "bin", "momo_model")
+OUT = VERIF     # where evidence/ and replays/ are written
+
+
+def _isolate():
+    """A run against a scratch copy of momo (VERIF_REPO=<dir>: seeded changes, mutation tests) must not disturb checks of
+    /repo that run at the same time: the generated files Extracted.lean / Translated*.lean and the lake build directory are
+    shared state. Such a run therefore works on a private copy of the Lean project (with its build output), a private build
+    directory and a private evidence / replay directory under /tmp/verif-iso-<hash of the path>/ (override: VERIF_ISO_DIR);
+    remove that directory when done. Registered commands never use this: they check /repo in place."""
+    global LEAN, BUILD, OUT
+    if os.path.realpath(REPO) == "/repo" and not os.environ.get("VERIF_ISO_DIR"):
+        return
+    iso = os.environ.get("VERIF_ISO_DIR") or "/tmp/verif-iso-" + hashlib.sha1(os.path.realpath(REPO).encode()).hexdigest()[:10]
+    os.makedirs(iso, exist_ok=True)
+    with Lock(os.path.join(VERIF, "build", "lake.lock")):      # a consistent snapshot: nobody is building meanwhile
+        subprocess.run(["rsync", "-a", "--delete", LEAN + "/", os.path.join(iso, "lean") + "/"], check=True)
+    LEAN, BUILD, OUT = os.path.join(iso, "lean"), os.path.join(iso, "build"), iso
+    sys.stderr.write("verif: isolated run in %s (VERIF_REPO=%s)\n" % (iso, REPO))
+
+
+def model_exe_path():
+    return os.path.join(LEAN, ".lake", "build", "bin", "momo_model")
+
+
 ALLOWED_AXIOMS = {"propext", "Classical.choice", "Quot.sound"}
 FORBIDDEN = re.compile(r"\bsorry\b|\badmit\b|^\s*axiom\s|native_decide|bv_decide|implemented_by|\bunsafe\s|maxHeartbeats\s+0")
 
@@ -89,10 +112,10 @@ def lake_build(targets, exe_copy=None):
     `exe_copy`, so that a concurrent build of another check cannot pull it away while this check runs"""
     with Lock(os.path.join(BUILD, "lake.lock")):
         rc, out, dt = sh(["lake", "build"] + targets, cwd=LEAN, timeout=3600)
-        if rc == 0 and exe_copy and os.path.exists(MODEL_EXE):
+        if rc == 0 and exe_copy and os.path.exists(model_exe_path()):
             os.makedirs(os.path.dirname(exe_copy), exist_ok=True)
             tmp = "%s.%d.tmp" % (exe_copy, os.getpid())
-            shutil.copy2(MODEL_EXE, tmp)
+            shutil.copy2(model_exe_path(), tmp)
             os.replace(tmp, exe_copy)   # atomic: a running copy keeps its inode (no ETXTBSY)
     return rc, out, dt
 
@@ -188,7 +211,7 @@ def run_harness(exe, seed, tier, outdir, timeout, extra_args=()):
 
 def run_model(ops_path, model_path, exe=None):
     with open(ops_path, "rb") as fin, open(model_path, "wb") as fout:
-        p = subprocess.run([exe or MODEL_EXE], stdin=fin, stdout=fout, stderr=subprocess.PIPE, timeout=3600)
+        p = subprocess.run([exe or model_exe_path()], stdin=fin, stdout=fout, stderr=subprocess.PIPE, timeout=3600)
     return p.returncode, p.stderr.decode("utf-8", "replace")
 
 
@@ -261,8 +284,8 @@ def match_known(pid, text, known):
 
 
 def write_replay(pid, tier, seed, kind, payload):
-    os.makedirs(os.path.join(VERIF, "replays"), exist_ok=True)
-    path = os.path.join(VERIF, "replays", "%s-%s-seed%s-%s.json" % (pid, tier, seed, kind))
+    os.makedirs(os.path.join(OUT, "replays"), exist_ok=True)
+    path = os.path.join(OUT, "replays", "%s-%s-seed%s-%s.json" % (pid, tier, seed, kind))
     payload = dict(payload)
     payload.update({"property": pid, "tier": tier, "seed": seed, "kind": kind,
                     "how_to_replay": "python3 /verif/tools/verif.py check %s --tier %s --seed %s" % (pid, tier, seed)})
@@ -272,10 +295,10 @@ def write_replay(pid, tier, seed, kind, payload):
 
 
 def write_evidence(prop, tier, seed, wall, cov, violations, assumptions):
-    os.makedirs(os.path.join(VERIF, "evidence"), exist_ok=True)
+    os.makedirs(os.path.join(OUT, "evidence"), exist_ok=True)
     ev = {"property_id": prop["id"], "tier": tier, "seed": seed, "level": prop.get("level", "proof"),
           "coverage": cov, "assumptions": assumptions, "wall_s": round(wall, 2), "violations": violations}
-    with open(os.path.join(VERIF, "evidence", prop["id"] + ".json"), "w") as f:
+    with open(os.path.join(OUT, "evidence", prop["id"] + ".json"), "w") as f:
         json.dump(ev, f, indent=1)
 
 
@@ -402,8 +425,8 @@ def check(pid, tier, seed):
             for ops in glob.glob(os.path.join(od, "*.ops")):
                 name = os.path.basename(ops)[:-4]
                 if name in fl and name not in attached and len(attached) < 3:
-                    os.makedirs(os.path.join(VERIF, "replays"), exist_ok=True)
-                    dst = os.path.join(VERIF, "replays", "%s-%s-seed%s-%s.ops" % (pid, tier, r["seed"], name))
+                    os.makedirs(os.path.join(OUT, "replays"), exist_ok=True)
+                    dst = os.path.join(OUT, "replays", "%s-%s-seed%s-%s.ops" % (pid, tier, r["seed"], name))
                     shutil.copy2(ops, dst)
                     attached[name] = dst
     if impl_fails:
@@ -510,16 +533,9 @@ def main():
     if a.cmd == "setup":
         sys.exit(setup())
     if a.cmd == "check":
+        _isolate()
         tier = a.tier if a.tier in ("quick", "thorough") else "quick"
         rc = check(a.pid, tier, a.seed)
-        if os.path.realpath(REPO) != "/repo":
-            # a scratch copy was checked (VERIF_REPO): put the shared Extracted.lean back to /repo's values
-            text, _ = extract.generate("/repo")
-            with open(os.path.join(LEAN, "Momo", "Extracted.lean"), "w") as f:
-                f.write(text)
-            for rel, ttext in translate.generate_all("/repo")[0].items():
-                with open(os.path.join(LEAN, "Momo", rel), "w") as f:
-                    f.write(ttext)
         sys.exit(rc)
     if a.cmd == "replay":
         rp = json.load(open(a.path))
